@@ -331,21 +331,16 @@ func (P *Program) noteFunc(fn *ssa.Function) {
 	P.mu.Unlock()
 }
 
-func (P *Program) noteModel(fn *ssa.Function) {
+// Usage notes are buffered per goroutine-local path and merged at path end (see flushNotes);
+// these helpers are only safe to call through the Interp wrappers.
+func (P *Program) mergeNotes(models map[string]int, assumptions map[string]bool) {
 	P.mu.Lock()
-	P.modelsUsed[fn.String()]++
-	P.mu.Unlock()
-}
-
-func (P *Program) noteModelName(name string) {
-	P.mu.Lock()
-	P.modelsUsed[name]++
-	P.mu.Unlock()
-}
-
-func (P *Program) noteAssumption(a string) {
-	P.mu.Lock()
-	P.assumptions[a] = true
+	for k, v := range models {
+		P.modelsUsed[k] += v
+	}
+	for k := range assumptions {
+		P.assumptions[k] = true
+	}
 	P.mu.Unlock()
 }
 
